@@ -8,7 +8,7 @@
    algorithm reads satisfy their specifications (P L U = A with L, U triangular; L L^H = A; exp(trace log A) = det A). *)
 From Coq Require Import List Arith Bool ZArith.
 From mathcomp Require Import all_ssreflect all_algebra.
-From Core Require Import Base Kron Op FieldBase C07_DetLaws C07_MxBridge C07_Slogdet C07_Proofs C07_Field C07_Exec C07_Refute C07_MxFinal.
+From Core Require Import Base Kron Op FieldBase C07_DetLaws C07_MxBridge C07_Slogdet C07_Proofs C07_Field C07_Exec C07_Refute C07_MxFinal C07_Unary.
 Import GRing.Theory Num.Theory.
 Local Open Scope ring_scope.
 
@@ -85,6 +85,13 @@ Theorem C07_exec_instance : forall fdet : nat -> fm (R:=qi) -> qi, DetLaws fdet 
   sdmul (fst (slogdet qdom all_fixed alg e)) (snd (slogdet qdom all_fixed alg e)) = sdof (fdet (dim e) (den (to_op e))).
 Proof. exact slogdet_qdom. Qed.
 Print Assumptions C07_exec_instance.
+
+(* 8b. the matrix-function rule behind the Lanczos/Arnoldi path (model of LanczosUnary/ArnoldiUnary._matmat): the cut-off for spurious
+       Ritz values depends on eps only, and nothing is dropped when every Ritz value is above 10 * eps * max|ritz| *)
+Theorem C07_unary_cutoff_keeps : forall eps10 w fw, length w = length fw ->
+  forallb (fun x => qcltb (Qcanon.Qcmult (Qcanon.Qcmult eps10 eps10) (maxn2 w)) (qinorm2 x)) w = true -> mask_f eps10 w fw = fw.
+Proof. exact mask_f_keeps. Qed.
+Print Assumptions C07_unary_cutoff_keeps.
 
 (* 9-12. with a recorded flag on (the pinned tree) the answer is not the determinant: concrete witnesses *)
 Theorem C07_scalar_slogdet_ignores_n_refuted : forall fdet : nat -> fm (R:=qi) -> qi, DetLaws fdet ->
